@@ -468,6 +468,8 @@ func checkC04(res *Result) {
 	checkAcceptVerification(res, p, E, "C04-R10")
 	res.Rule("C04-R11", "the default callbacks see every embedded object / target / actor: GetType of those properties returns the value for each of their type-valued kinds (shared with C18-R4)")
 	checkTypeAccessorTables(res, "C04-R11", map[string]bool{"object": true, "target": true, "actor": true})
+	res.Rule("C04-R12", "Remove matches collection elements by ToId in both the items and the orderedItems branch (shared with C16-R4)")
+	checkRemoveMembership(res, p, "C04-R12")
 	res.Rule("C04-R9", "the automatic Accept / Reject reaches every actor of the Follow: on the delivery path every addressed actor whose inbox the Database does not know is resolved remotely (shared with C02-R5)")
 	if fn := p.Func("sideEffectActor.prepare"); fn != nil {
 		ffp := computeFacts(fn)
